@@ -159,5 +159,16 @@ func init() {
 	})
 }
 
+func init() {
+	register("C07", &Property{
+		Title: "Affine transformation of a path transforms every point of it",
+		Explanation: "Decides one clause for every path and matrix: the rotation of elliptical arcs is handled in consistent angle units through Transform, Matrix.Rotate, Join, Reverse, the scanners and the arc helpers — a whole-package unit inference (radians/degrees) over SSA finds no value used in both units, the rotation slot of arc records is radians everywhere it is read or written, and the documented units of ArcTo/Arc/Matrix.Rotate (degrees) are reproduced. A missing or doubled conversion is invisible to tests whose arcs have rotation 0. NOT decided: the matrix algebra (Mul/Dot/Inv/T/Decompose), the eigen-decomposition in Transform, the sweep flip under reflection, which points a transformed segment contains.",
+		Assumptions: []string{"unit seeds: math trigonometric functions take/return radians; x*180/π and x*π/180 are the only conversions", "values multiplied by non-constant factors get a fresh unit variable (no false conflicts from scalars)"},
+		Run: func(c *core.Ctx, r *core.Report) {
+			E8Units(c, r)
+		},
+	})
+}
+
 // RunMutant is the entry point of the self-validation sub-process (thorough tier).
 func RunMutant(args []string) int { return runMutant(args) }
